@@ -43,6 +43,10 @@ pub struct Case {
     pub k: u8,
     pub ops: Vec<Op>,
     pub seed: u64,
+    /// both counters of each direction start here (sender via the verif hook, receiver via
+    /// set_receiving_nonce) so that the schedule runs across a counter boundary
+    #[serde(default)]
+    pub base: u64,
 }
 
 fn oracle(c: &Case, acc: &mut Acc) -> CaseResult {
@@ -58,6 +62,12 @@ fn oracle(c: &Case, acc: &mut Acc) -> CaseResult {
     let pair = drive_to(&spec, spec.n_msgs())?;
     let mut ti = pair.i.into_transport_mode().map_err(|x| Fail::setup(e(&x)))?;
     let mut tr = pair.r.into_transport_mode().map_err(|x| Fail::setup(e(&x)))?;
+    if c.base != 0 {
+        ti.verif_set_sending_nonce(c.base);
+        tr.verif_set_sending_nonce(c.base);
+        ti.set_receiving_nonce(c.base);
+        tr.set_receiving_nonce(c.base);
+    }
     // send K messages per direction
     let k = c.k as usize;
     let mut sent: [Vec<(Vec<u8>, Vec<u8>)>; 2] = [vec![], vec![]];
@@ -74,8 +84,8 @@ fn oracle(c: &Case, acc: &mut Acc) -> CaseResult {
             sent[d].push((payload, m));
         }
     }
-    let writes = [sent[0].len() as u64, sent[1].len() as u64];
-    let mut rn = [0u64; 2];
+    let writes = [c.base + sent[0].len() as u64, c.base + sent[1].len() as u64];
+    let mut rn = [c.base; 2];
     let mut rejected_then_accepted = false;
     let mut seen_reject = [false; 2];
     let mut accepted = 0;
@@ -94,7 +104,7 @@ fn oracle(c: &Case, acc: &mut Acc) -> CaseResult {
                 let (payload, m) = &sent[d][j];
                 let mut buf = vec![0u8; payload.len() + 3];
                 let res = r.read_message(m, &mut buf);
-                if j as u64 == rn[d] {
+                if c.base + j as u64 == rn[d] {
                     match res {
                         Ok(n) => {
                             ensure!(buf[..n] == payload[..], "{ctx}: accepted message {j} but returned a different payload");
@@ -119,8 +129,8 @@ fn oracle(c: &Case, acc: &mut Acc) -> CaseResult {
                 seen_reject[d] = true;
             },
             Op::SmallBufBy(_, by) => {
-                if rn[d] < k as u64 {
-                    let (payload, m) = &sent[d][rn[d] as usize];
+                if rn[d] >= c.base && rn[d] - c.base < k as u64 {
+                    let (payload, m) = &sent[d][(rn[d] - c.base) as usize];
                     if !payload.is_empty() {
                         let short = if *by == 255 { payload.len() } else { (*by as usize % payload.len()) + 1 };
                         let mut buf = vec![0u8; payload.len() - short];
@@ -138,8 +148,8 @@ fn oracle(c: &Case, acc: &mut Acc) -> CaseResult {
                 seen_reject[d] = true;
             },
             Op::SmallBuf(_) => {
-                if rn[d] < k as u64 && !sent[d][rn[d] as usize].0.is_empty() {
-                    let (payload, m) = &sent[d][rn[d] as usize];
+                if rn[d] >= c.base && rn[d] - c.base < k as u64 && !sent[d][(rn[d] - c.base) as usize].0.is_empty() {
+                    let (payload, m) = &sent[d][(rn[d] - c.base) as usize];
                     let mut buf = vec![0u8; payload.len() - 1];
                     let res = r.read_message(m, &mut buf);
                     ensure!(res.is_err(), "{ctx}: expected message accepted into a buffer one byte too small");
@@ -154,8 +164,10 @@ fn oracle(c: &Case, acc: &mut Acc) -> CaseResult {
                 seen_reject[d] = true;
             },
             Op::SetNonce(_, v) => {
-                r.set_receiving_nonce(*v);
-                rn[d] = *v;
+                // small values are meant relative to the base (message numbers)
+                let v = if *v < 16 { c.base.wrapping_add(*v) } else { *v };
+                r.set_receiving_nonce(v);
+                rn[d] = v;
             },
         }
         // invariants after every step, both endpoints
@@ -225,6 +237,7 @@ pub fn run(ctx: &Ctx) {
                 k,
                 ops: nth_schedule(i, &alpha, max_len),
                 seed: mix(seed, (i % 97) as u64),
+                base: [0u64, 0, 253, 65533, (1 << 32) - 3][(i / 7) % 5],
             },
             oracle,
         );
@@ -249,6 +262,7 @@ pub fn run(ctx: &Ctx) {
                 k,
                 ops,
                 seed: s,
+                base: [0u64, 0, 0, 251, 65531, (1 << 16) - 1, (1 << 24) - 4, (1 << 31) - 4, (1 << 32) - 4, (1 << 48) - 4, (1 << 63) - 4, u64::MAX - 20][(s % 12) as usize],
             })
         },
         oracle,
